@@ -182,7 +182,13 @@ def compute_posts(ctx, key, spec=()):
     if spec:
         E = State()
         for (pi, d) in spec:
-            E.doms[("discr", ("ld", (("L", pi, key), ()), "entry"))] = Dom(d, d)
+            if isinstance(d, tuple) and d[0] == "int":
+                # an integer parameter that is a constant at this call site
+                psv = ("ld", (("L", pi, key), ()), "entry")
+                set_ty(psv, tykey(body.locals[pi]["t"]))
+                E.doms[psv] = Dom(d[1], d[1])
+            else:
+                E.doms[("discr", ("ld", (("L", pi, key), ()), "entry"))] = Dom(d, d)
         it = I.Interp(ctx, body, E)
         it.run()
     else:
